@@ -343,7 +343,16 @@ def run_case_inner(body, spec, complex_=False, validate=False, max_paths=2000, s
                         res.inconclusive += 1
                         res.notes["inconclusive:" + name.split("@")[0].split("[")[0][:40]] = res.notes.get("inconclusive:" + name.split("@")[0].split("[")[0][:40], 0) + 1
                 continue
-            if r != z3.unsat:
+            witness = None
+            if r != z3.unsat and not c.assumptions:
+                # a polynomial identity that did not normalise to zero: before asking z3 for a model of its negation (its non-linear core can
+                # loop on such searches without honouring the time-out), evaluate at a few random rational points satisfying the path condition;
+                # a point where the obligation evaluates to false is a concrete witness (replayed on the real code like any model)
+                witness = _random_witness(c, S, goal, seed)
+                if witness is not None:
+                    r = z3.sat
+                    res.notes["witness-by-evaluation"] = res.notes.get("witness-by-evaluation", 0) + 1
+            if r != z3.unsat and witness is None:
                 r = c.solver.check(z3.Not(goal))
                 res.queries += 1
             if r == z3.unsat:
@@ -362,7 +371,7 @@ def run_case_inner(body, spec, complex_=False, validate=False, max_paths=2000, s
                     else:
                         res.inconclusive += 1
             else:
-                m = c.solver.model()
+                m = witness if witness is not None else c.solver.model()
                 bad = [(n, f) for n, f in S.obl if z3.is_false(m.eval(f, model_completion=True))]
                 if not bad:
                     bad = S.obl[:1]
@@ -391,6 +400,34 @@ def run_case_inner(body, spec, complex_=False, validate=False, max_paths=2000, s
             res.notes[n] = res.notes.get(n, 0) + 1
     res.solver_s = time.time() - t0
     return res
+
+
+class _PointModel:
+    """a rational point standing in for a z3 model (evaluation by substitution)"""
+
+    def __init__(self, sub):
+        self.sub = sub
+
+    def eval(self, e, model_completion=True):
+        return z3.simplify(z3.substitute(e, *self.sub)) if self.sub else z3.simplify(e)
+
+
+def _random_witness(c, S, goal, seed, tries=3):
+    names = sorted(set(S.varnames))
+    if not names or z3.is_true(z3.simplify(goal)):
+        return None
+    rng = random.Random(seed * 977 + len(names))
+    for t in range(tries):
+        sub = [(z3.Real(n), z3.RealVal(f"{rng.choice([k for k in range(-12, 13) if k])}/4")) for n in names]
+        pm = _PointModel(sub)
+        try:
+            if not all(z3.is_true(pm.eval(f)) for f in c.path):
+                continue
+            if z3.is_false(pm.eval(goal)):
+                return pm
+        except z3.Z3Exception:
+            return None
+    return None
 
 
 def _check_linear(c, goal):
@@ -472,16 +509,16 @@ def replay_numeric(body, spec, complex_, values, seed=0):
 
 
 def _replay_and_record(res, body, spec, complex_, c, S, kind, name, detail, values=None):
+    no_model = False
     if values is None:
         # any model of the path condition will do (structure does not depend on data on this path)
         values = {}
-        if S is not None and S.varnames and c.solver.check() == z3.sat:
-            names = sorted(set(S.varnames))
-            m = _bounded_model(c.solver, z3.BoolVal(True), names)
-            if m is None:
-                c.solver.check()
-                m = c.solver.model()
-            values = _model_values(m, names)
+        if S is not None and S.varnames:
+            mv = _path_model(c, sorted(set(S.varnames)))
+            if mv is not None:
+                values = mv
+            elif c.path or c.assumptions:
+                no_model = True
     failed, structural, err, Sn = replay_numeric(body, spec, complex_, values)
     if kind in ("raised", "structural") and not (failed or structural or err is not None):
         # an unconstrained model is typically all zeros, which hides value errors: also try generic data
@@ -531,20 +568,39 @@ def _replay_and_record(res, body, spec, complex_, c, S, kind, name, detail, valu
         # a branch on this path was taken although its feasibility query timed out (over-approximation): the path may not exist
         res.inconclusive += 1
         res.notes["finding-on-path-of-undecided-feasibility"] = res.notes.get("finding-on-path-of-undecided-feasibility", 0) + 1
+    elif no_model:
+        res.inconclusive += 1
+        res.notes["finding-without-concrete-model"] = res.notes.get("finding-without-concrete-model", 0) + 1
+    elif kind != "value" and any(t_ and "contract" in t_ for t_, _ in c.assumptions):
+        res.inconclusive += 1
+        res.notes["finding-under-contracts-did-not-replay"] = res.notes.get("finding-under-contracts-did-not-replay", 0) + 1
     else:
         res.harness_errors.append(f"non-reproducing {kind} counterexample {name} on {_short(spec)}")
+
+
+def _path_model(c, names):
+    """values of the input variables on this path, or None when the solver cannot produce them (unknown / time-out)"""
+    try:
+        if c.solver.check() != z3.sat:
+            return None
+        m = _bounded_model(c.solver, z3.BoolVal(True), names)
+        if m is None:
+            if c.solver.check() != z3.sat:
+                return None
+            m = c.solver.model()
+        return _model_values(m, names)
+    except z3.Z3Exception:
+        return None
 
 
 def _replay_structural(res, body, spec, complex_, c, S):
     """one numeric replay for all structural violations of a path"""
     values = {}
-    if S.varnames and c.solver.check() == z3.sat:
-        names = sorted(set(S.varnames))
-        m = _bounded_model(c.solver, z3.BoolVal(True), names)
-        if m is None:
-            c.solver.check()
-            m = c.solver.model()
-        values = _model_values(m, names)
+    have_model = not (c.path or c.assumptions)  # (a path without conditions needs no model: any data follows it)
+    if S.varnames:
+        mv = _path_model(c, sorted(set(S.varnames)))
+        if mv is not None:
+            values, have_model = mv, True
     failed, structural, err, Sn = replay_numeric(body, spec, complex_, values)
     if not (failed or structural or err is not None):
         for t in range(2):  # an unconstrained model is typically all zeros: also try generic data
@@ -565,6 +621,17 @@ def _replay_structural(res, body, spec, complex_, c, S):
             # (a branch on this path was taken although its feasibility query timed out: the path may not exist)
             res.inconclusive += 1
             res.notes["finding-on-path-of-undecided-feasibility"] = res.notes.get("finding-on-path-of-undecided-feasibility", 0) + 1
+        elif not have_model:
+            # the solver produced no concrete data for this path (unknown under the non-linear contracts): the finding cannot be replayed,
+            # so it is neither reported nor dismissed
+            res.inconclusive += 1
+            res.notes["structural-finding-without-concrete-model"] = res.notes.get("structural-finding-without-concrete-model", 0) + 1
+        elif any(t_ and "contract" in t_ for t_, _ in c.assumptions):
+            # under LAPACK contracts the model fixes the inputs only; the factors LAPACK then computes are the model's up to the gauge the
+            # contract leaves open and up to rounding at the (typically boundary) values the solver picks: a finding that does not replay
+            # there is not reported, and not dismissed either
+            res.inconclusive += 1
+            res.notes["finding-under-contracts-did-not-replay"] = res.notes.get("finding-under-contracts-did-not-replay", 0) + 1
         else:
             res.harness_errors.append(f"non-reproducing structural counterexample {name} on {_short(spec)}")
 
